@@ -177,6 +177,28 @@ func ruleC20Load(cx *Ctx) {
 	if doCall == nil || doBulk == nil {
 		return
 	}
+	// the dispatch functions invoke the load function exactly once on every path (a recorded load is a loader invocation)
+	for _, d := range []*ssa.Function{doCall, doBulk} {
+		dr := cx.runOp(rule, opSpec{cname(d), "group", cname(d), nil, cname(d), nil})
+		if dr == nil {
+			continue
+		}
+		da := newAgg(cx, rule, funcName(d), cx.P.Pos(d.Pos()))
+		loadParam := pname(bparam(d, 3))
+		for _, o := range dr.outs {
+			if o.Cut {
+				continue
+			}
+			n := 0
+			for _, e := range allEvents(o, "UserCall") {
+				if e.Args[0] == loadParam {
+					n++
+				}
+			}
+			da.check("loader invoked exactly once", n == 1, "every path of the dispatch function calls the load function exactly once (one recorded load = one loader invocation)", fmt.Sprintf("%d invocation(s)", n), o)
+		}
+		da.flush()
+	}
 	sinks := []*ssa.Function{doCall, doBulk}
 	wl := r.fn
 	for _, fn := range cx.P.FuncsOfPkg("") {
